@@ -172,6 +172,17 @@ func (x *wrun) applyTamper(ns []*wmpt.PersistNodeBase, class string, a []string)
 		}
 		ns[p] = os[arg(2)%len(os)]
 		return ns
+	case "append":
+		// an element of the proof in another slot (arg 2 from its END: 0 = its leaf) appended after the whole proof
+		other, ok := x.slots[arg(1)]
+		if !ok {
+			return nil
+		}
+		os, ok := decodeProofPairs(other.proof)
+		if !ok || len(os) == 0 {
+			return nil
+		}
+		return append(append([]*wmpt.PersistNodeBase(nil), ns...), os[len(os)-1-arg(2)%len(os)])
 	case "drop":
 		return append(ns[:p:p], ns[p+1:]...)
 	case "dup":
@@ -440,7 +451,9 @@ func genC10(r *rand.Rand, tier string, idx int) []string {
 		}
 		p := r.Intn(4)
 		var t string
-		switch r.Intn(13) {
+		switch r.Intn(14) {
+		case 13:
+			t = fmt.Sprintf("append %d %d %d", p, 1-slot, r.Intn(3)/2) // mostly the other proof's leaf
 		case 0, 1:
 			t = fmt.Sprintf("reweight %d %d %d %d", p, r.Intn(16), r.Intn(16), 1+r.Intn(4))
 		case 2:
@@ -481,7 +494,7 @@ func genC10(r *rand.Rand, tier string, idx int) []string {
 func init() {
 	register(&Suite{
 		Name:        "c10",
-		Rule:        "tries of 1..9 keys (every 150th case: comb-shaped tries of 62..65 keys in which one key has a sibling at every nibble depth 0..60/61/62/63 — the longest proof paths, up to 65 elements; 32-byte keys with shared prefixes of every length, weights 1..4 determined by the value; in memory, committed at collapse levels -1..5, reloaded); honest proofs of every block, then structured tampering of two kept proofs (re-weighting with constant sum, empty-hash child, sibling swap, substitution from other positions/proofs, drop/duplicate/truncate, bit flips in every field, node-kind substitution); non-trivial = at least 2 mutations and one verified honest proof",
+		Rule:        "tries of 1..9 keys (every 150th case: comb-shaped tries of 62..65 keys in which one key has a sibling at every nibble depth 0..60/61/62/63 — the longest proof paths, up to 65 elements; 32-byte keys with shared prefixes of every length, weights 1..4 determined by the value; in memory, committed at collapse levels -1..5, reloaded); honest proofs of every block, then structured tampering of two kept proofs (re-weighting with constant sum, empty-hash child, sibling swap, substitution from other positions/proofs, an element of the other proof (its leaf) appended after the proof, drop/duplicate/truncate, bit flips in every field, node-kind substitution); non-trivial = at least 2 mutations and one verified honest proof",
 		Gen:         genC10,
 		Run:         runWmpt,
 		CaseTimeout: 3 * time.Minute, // a stalled machine must not look like a hang; a real hang still fails the case
